@@ -12,9 +12,9 @@ verification, keys as raw numbers from the committed pool) judges the bytes:
      on PrivateKeyRsa/Ecc.sign) equal the model's body byte for byte;
  (3) calculate_hash() equals the independent construction and - where a counterpart exists - the image
      tools' `Rot(family, revision, keys)`;
- (4) every response embeds DC and authentication beacon and is signed by the DCK over
-     DC || beacon || (UUID, protocol 2.x) || challenge: the M-SIGN record equals the model's message; the
-     verifier rejects when exactly one of {challenge, DC, UUID, beacon} is changed in its expected message;
+ (4) every response embeds DC, authentication beacon (and, protocol 2.x, the device UUID) and is signed by the
+     DCK over DC || beacon || (UUID, protocol 2.x) || challenge: the M-SIGN record equals the model's message;
+     the verifier rejects when exactly one of {challenge, DC, UUID, beacon} is changed in its expected message;
  (5) DebugAuthenticationChallenge.parse returns the synthesised fields, validate_against_dc accepts the
      matching credential and rejects another SOCC / UUID.
 """
@@ -36,7 +36,8 @@ TECHNIQUE = ("runtime monitoring: independent field-level decoder + pure-Python 
 RULE = (
     "every (family, revision) with the DAT feature in the database under test x RoT key type {RSA-2048, RSA-4096, P-256, "
     "P-384, P-521} x RoT set size 1..4 x used index (EdgeLock: 4 keys x used index; EdgeLock v2: AHAB certificate x SRK "
-    "index); SOCC from the database (or legacy 'socc' key), UUID / CC_SOCU / CC_VU / beacons random + edge values, key "
+    "index; RSA-4096, 0.3 s per key load, on every 3rd (quick) / 2nd (thorough) non-EdgeLock device and all EdgeLock ones); "
+    "six directed witnesses of the defects seen on the unchanged tree; SOCC from the database (or legacy 'socc' key), UUID / CC_SOCU / CC_VU / beacons random + edge values, key "
     "sources pub PEM/DER and certificates, signer by key file or file signature provider; per credential 1..2 model-"
     "synthesised challenges with random/edge challenge vectors. A case signature is (class, family, revision, key type, "
     "set size, used index); non-trivial = the credential was created, exported and judged by the model."
@@ -346,10 +347,6 @@ def _names(rng, kind, n, used):
     rest = [x for x in pool if x not in names]
     dck = core.pick(rng, rest) if rest else core.pick(rng, [x for i, x in enumerate(names) if i != used] or names)
     return names, dck
-
-
-class _Skip(Exception):
-    pass
 
 
 def _viol(ctx, key, detail):
